@@ -1,0 +1,27 @@
+//! Verification hooks. Compiled only with `--cfg rasn_compiler_verif`; they re-export
+//! crate-private pure functions so that a harness can run them side by side with a model.
+//! Nothing in the compiler calls into this module.
+
+use crate::input::Input;
+
+/// Applies a sequence of `Input::slice` operations to `src` and reports the position
+/// bookkeeping after each step as `(line, column, offset, remaining_len)`.
+/// An operation is `(from, Some(to))` for `slice(from..to)` and `(from, None)` for `slice(from..)`,
+/// both relative to the current remainder. Out-of-range or non-boundary indices end the trace.
+pub fn input_slice_trace(src: &str, ops: &[(usize, Option<usize>)]) -> Vec<(usize, usize, usize, usize)> {
+    let mut input = Input::from(src);
+    let mut out = vec![(input.line(), input.column(), input.offset(), input.len())];
+    for (from, to) in ops {
+        let inner = input.inner();
+        let to_abs = to.unwrap_or(inner.len());
+        if *from > to_abs || to_abs > inner.len() || !inner.is_char_boundary(*from) || !inner.is_char_boundary(to_abs) {
+            break;
+        }
+        input = match to {
+            Some(t) => input.slice(*from..*t),
+            None => input.slice(*from..),
+        };
+        out.push((input.line(), input.column(), input.offset(), input.len()));
+    }
+    out
+}
